@@ -90,10 +90,20 @@ def run_pool(case):
     return {'ops': out}
 
 
+class _NullDispatcher(object):
+    def notify(self, *args, **kwargs):
+        pass
+
+
 class ScriptedHTTPSession(object):
+    # WebSession.__exit__ (used by fetch_robots_txt since the pool-leak repair) ends the protocol session through these
+    from wpull.protocol.abstract.client import BaseSession as _Base
+    SessionEvent = _Base.SessionEvent
+
     def __init__(self, client):
         self.client = client
         self.response = None
+        self.event_dispatcher = _NullDispatcher()
 
     @compat.coroutine
     def start(self, request):
@@ -245,8 +255,11 @@ def run_conc(case):
         return [url_info.scheme, url_info.hostname, url_info.port]
 
     class Session(object):
+        SessionEvent = ScriptedHTTPSession.SessionEvent
+
         def __init__(self):
             self.response = None
+            self.event_dispatcher = _NullDispatcher()
 
         @compat.coroutine
         def start(self, request):
